@@ -470,6 +470,11 @@ func (tree *ParserT) parseExpression(exec, incLogicalOps bool) error {
 		}
 	}
 
+	if tree.subExp {
+		// ran out of text inside a sub-expression: without this the caller steps backwards and loops forever
+		return raiseError(tree.expression, nil, tree.charPos, "missing closing parenthesis ')'")
+	}
+
 	if tree.charPos >= len(tree.expression)-1 || tree.expression[tree.charPos] == 0 {
 		tree.charPos--
 	}
